@@ -305,7 +305,7 @@ pub(crate) fn c06_rabin_step_hint0() {
 //@ prop: C06
 //@ tier: quick
 //@ timeout: 2400
-//@ mem: 10
+//@ mem: 6
 //@ unwindset: calculate_out_table#0=4; calculate_out_table#1=258; calculate_mod_table#0=258; modulo#0=64
 //@ kernel: chunker::rabin::ChunkIter::next from a valid iterator state with small accepted parameters, check_rabin_params
 //@ bound: accepted parameter triples (avg,min,max) = (64,16,72) with 20 unread look-ahead bytes + 8 stream bytes [minimum below the 64-byte window and below the look-ahead fill]; (32,8,40) with 3 look-ahead + 50 stream bytes [minimum below the window, plenty of data]; (64,64,72) with 20 + 8 bytes [final short chunk]; (64,0,72) with 3 + 10 bytes [minimum size 0, if accepted]; (64,64,72) with 20 + 60 bytes [look-ahead bytes count towards the minimum: more data than max size available]; all bytes symbolic; full reads; one call of next(); the Rabin64 instance has a 2-byte window (hash values are not the subject here, ChunkIter::next's own arithmetic is)
@@ -317,7 +317,7 @@ pub(crate) fn c06_rabin_step_hint0() {
 //@ prop: C06 C18
 //@ tier: quick
 //@ timeout: 2400
-//@ mem: 10
+//@ mem: 6
 //@ unwindset: calculate_out_table#0=4; calculate_out_table#1=258; calculate_mod_table#0=258; modulo#0=64
 //@ kernel: chunker::rabin::ChunkIter::next from a valid iterator state with small accepted parameters, check_rabin_params
 //@ bound: accepted parameter triples (avg,min,max) = (64,16,72) with 20 unread look-ahead bytes + 8 stream bytes [minimum below the 64-byte window and below the look-ahead fill]; (32,8,40) with 3 look-ahead + 50 stream bytes [minimum below the window, plenty of data]; (64,64,72) with 20 + 8 bytes [final short chunk]; (64,0,72) with 3 + 10 bytes [minimum size 0, if accepted]; (64,64,72) with 20 + 60 bytes [look-ahead bytes count towards the minimum: more data than max size available]; all bytes symbolic; full reads; one call of next(); the Rabin64 instance has a 2-byte window (hash values are not the subject here, ChunkIter::next's own arithmetic is)
@@ -526,7 +526,7 @@ pub(crate) fn c06_rabin_pair_frag() { pair_check::<0, 76, 5, 71, 76, 1>(64, 64, 
 //@ prop: C06
 //@ tier: quick
 //@ timeout: 3000
-//@ mem: 12
+//@ mem: 8
 //@ unwindset: calculate_out_table#0=4; calculate_out_table#1=258; calculate_mod_table#0=258; modulo#0=64
 //@ kernel: chunker::rabin::ChunkIter::{new,next}, rustic_cdc::Rabin64::{reset_and_prefill_window,slide} (2-byte window instance)
 //@ bound: polynomial 0x3DA3358B4DC173, Rabin64 with a 2-byte window, (avg,min,max)=(16,4,20); one call of next() on each of two iterators over the same 24 symbolic remaining bytes: A = empty look-ahead + 24 stream bytes, fresh hash state; B = 3 unread look-ahead bytes + 21 stream bytes, hash state disturbed by two previously slid symbolic bytes; full reads
@@ -544,7 +544,7 @@ pub(crate) fn c06_rabin_pair_small() { pair_check_w::<0, 24, 3, 21, 24, 0>(1, 16
 //@ prop: C06
 //@ tier: quick
 //@ timeout: 2400
-//@ mem: 16
+//@ mem: 10
 //@ unwindset: calculate_out_table#0=10; calculate_out_table#1=258; calculate_mod_table#0=258; modulo#0=64
 //@ kernel: as c06_rabin_pair_small with an 8-byte window
 //@ bound: polynomial 0x3DA3358B4DC173, Rabin64 with an 8-byte window (the smallest for which a stale byte is reduced modulo the polynomial into the bits the split mask reads), (avg,min,max)=(16,8,20); two iterators over the same 12 symbolic remaining bytes: A = empty look-ahead + 12 stream bytes, fresh hash state; B = 3 look-ahead + 9 stream bytes after a full window (8) of symbolic stale bytes was slid through its hash; full reads
